@@ -231,7 +231,8 @@ Definition brk (rest : list token) : Prop :=
 
 Definition follow_ok (s : sst) (rest : list token) : Prop :=
   match s with
-  | TAssign _ _ _ c => stops P_LOWEST rest /\ (rdot c = true -> not_lparen rest)
+  | TAssign _ _ _ c => (stops P_LOWEST rest /\ (rdot c = true -> not_lparen rest)) /\
+                       match rest with t :: _ => inb (ttype t) [T_RBRACES; T_SEMI] = true | [] => False end
   | _ => True
   end.
 
@@ -266,7 +267,7 @@ Proof.
   assert (FO : follow_ok s (flats ss ++ rest)).
   { destruct s; try exact I. destruct ss as [|[] ss']; try contradiction.
     destruct W' as (Wc & _). cbn [wf_s] in Wc. cbn [flats map concat flat_s app].
-    split; [left; rewrite Wc; reflexivity|]. intros _. cbn [not_lparen]. rewrite Wc. discriminate. }
+    split; [split; [left; rewrite Wc; reflexivity|intros _; cbn [not_lparen]; rewrite Wc; discriminate]|rewrite Wc; reflexivity]. }
   eapply (conv_bind (fun f => parseStatement f (setToks st (flat_s s ++ flats ss ++ rest)))
                     (fun f x st1 =>
                        let acc' := if stmt_is_null x then acc else x :: acc in
@@ -374,7 +375,7 @@ Lemma parseStatement_at f st a r t :
   ttype a = t -> parseStatement (S f) (setToks st (a :: r)) =
   (fun st0 => match t with
    | T_HTML => POk (SHtml (eline a) (tlit a)) st0
-   | T_LBRACES | T_SEMI => parseEmbeddedCode f st0
+   | T_LBRACES | T_SEMI => parseBracesStmt f st0
    | T_BREAK => POk SBreak st0
    | T_CONTINUE => POk SContinue st0
    | T_BREAK_IF => parseCondDirective f SBreakIf st0
@@ -627,6 +628,25 @@ Proof.
   constructor; [apply (Forall_Ps_of_size n IH); [lia|exact Wb]|apply IHl; [lia|exact W']].
 Qed.
 
+(* a statement of a {{ }} block: no error was recorded and the block goes on or is closed *)
+Lemma braces_stmt_ok st toks0 s sfin :
+  conv (fun f => parseEmbeddedCode f (setToks st toks0)) s (setToks st sfin) ->
+  curIs (setToks st sfin) T_RBRACES || peekIn (setToks st sfin) [T_RBRACES; T_SEMI] = true ->
+  conv (fun f => parseBracesStmt f (setToks st toks0)) s (setToks st sfin).
+Proof.
+  intros H C. unfold parseBracesStmt.
+  eapply (conv_bind0 (fun f => parseEmbeddedCode f (setToks st toks0))
+                     (fun f x st1 =>
+                        if negb (Nat.eqb (List.length (errs st1)) (List.length (errs (setToks st toks0)))) || curIs st1 T_RBRACES ||
+                           peekIn st1 [T_RBRACES; T_SEMI]
+                        then POk x st1
+                        else match tokenString T_RBRACES, tokenString (ttype (peekT st1)) with
+                             | Some a, Some b => POk SNull (addErr st1 (eline (peekT st1)) (fmt ErrWrongNextToken [a; b]))
+                             | _, _ => POk SNull (setPanic st1)
+                             end)); [exact H|].
+  cbv beta. cbn [errs setToks]. rewrite Nat.eqb_refl. cbn [negb orb]. rewrite C. apply conv_const.
+Qed.
+
 Theorem stmt_parses_n : forall n s, (size_s s <= n)%nat -> wf_s s -> Ps s.
 Proof.
   induction n as [|n IH]; intros s Hs W.
@@ -638,8 +658,9 @@ Proof.
   - (* {{ c }} *)
     destruct W as (Hlb & Hrb & Wc). cbn [flat_s ast_s last_s app]. rewrite <- app_assoc. cbn [app].
     destruct (first_not_rbraces c Wc) as (a & r' & Ea & Ha).
-    apply (conv_shift (fun f => parseEmbeddedCode f (setToks st (lb :: flat c ++ rb :: rest)))).
+    apply (conv_shift (fun f => parseBracesStmt f (setToks st (lb :: flat c ++ rb :: rest)))).
     { intro f. exact (parseStatement_at f st lb _ T_LBRACES Hlb). }
+    apply braces_stmt_ok; [|unfold curIs; rewrite curT_cons, Hrb; reflexivity].
     eapply (conv_ext _ (fun f => match parseExpression f P_LOWEST (setToks st (flat c ++ rb :: rest)) with
                                  | POk e st1 => POk (SExpr e) (if peekIs st1 T_RBRACES then advance st1 else st1)
                                  | POOF => POOF end)).
@@ -659,10 +680,11 @@ Proof.
     + cbv beta. rewrite peekIs_cons, Hrb. change (tok_eqb T_RBRACES T_RBRACES) with true. cbv match.
       rewrite advance_cons. apply conv_const.
   - (* {{ x = c *)
-    destruct W as (Hlb & Hid & Heq & Wc). destruct FO as [FS FD]. cbn [flat_s ast_s last_s app].
+    destruct W as (Hlb & Hid & Heq & Wc). destruct FO as [[FS FD] FN]. cbn [flat_s ast_s last_s app].
     destruct (first_not_rbraces c Wc) as (a & r' & Ea & Ha).
-    apply (conv_shift (fun f => parseEmbeddedCode f (setToks st (lb :: id :: eq :: flat c ++ rest)))).
+    apply (conv_shift (fun f => parseBracesStmt f (setToks st (lb :: id :: eq :: flat c ++ rest)))).
     { intro f. exact (parseStatement_at f st lb _ T_LBRACES Hlb). }
+    apply braces_stmt_ok; [|destruct rest as [|t0 rest0]; [destruct FN|rewrite peekIn_cons, FN; apply orb_true_r]].
     eapply (conv_ext _ (fun f => match parseExpression f P_LOWEST (setToks st (flat c ++ rest)) with
                                  | POk v st3 => POk (SAssign (eline id) (tlit id) v) st3
                                  | POOF => POOF end)).
@@ -919,7 +941,7 @@ Proof.
     assert (FO : follow_ok s (flats ss ++ [eof])).
     { destruct s; try exact I. destruct ss as [|[] ss']; try contradiction.
       destruct W' as (Wc & _). cbn [wf_s] in Wc. cbn [flats map concat flat_s app].
-      split; [left; rewrite Wc; reflexivity|]. intros _. cbn [not_lparen]. rewrite Wc. discriminate. }
+      split; [split; [left; rewrite Wc; reflexivity|intros _; cbn [not_lparen]; rewrite Wc; discriminate]|rewrite Wc; reflexivity]. }
     assert (NE : tok_eqb (ttype a) T_EOF = false).
     { destruct (tok_eqb (ttype a) T_EOF) eqn:X; [|reflexivity]. apply ParseTotal.tok_eqb_eq in X. rewrite X in Ga. discriminate Ga. }
     eapply (conv_bind (fun f => parseStatement f (setToks st (flat_s s ++ flats ss ++ [eof])))
